@@ -62,6 +62,9 @@ pub fn judge(acc: &mut Acc, input: &[u8], class: &str, cid: &dyn Fn() -> String)
     }
 }
 
+/// the same oracle without building case ids eagerly (used for the 2^32 sweep)
+fn judge_fast(acc: &mut Acc, input: &[u8]) { judge(acc, input, "all-strings", &|| format!("f4/{}", hex::encode(input))) }
+
 // ---------- family 2: structural mutations on the CBOR item tree ----------
 fn junk() -> Vec<(&'static str, V)> {
     let t = |s: &str| V::Text(s.into());
@@ -195,6 +198,8 @@ pub fn seeds(w: usize) -> Vec<(String, Vec<u8>)> {
     out
 }
 
+fn v_small(v: &V) -> bool { dcbor::bytes(v).len() <= 40 }
+
 pub fn run(ctx: &Ctx) -> i32 {
     // the sweep runs in a child process so that an abort (stack overflow, allocation failure) is attributed, not a hang or crash of the checker
     if std::env::var("VH_C06_CHILD").is_err() && ctx.replay.is_none() {
@@ -215,7 +220,7 @@ pub fn run(ctx: &Ctx) -> i32 {
     let th = ctx.tier.thorough();
     let mut acc = Acc::new();
     // family 1: valid encodings
-    let sd = seeds(if th { 5 } else { 4 });
+    let sd = seeds(if th { 6 } else { 5 });
     for (n, b) in &sd { judge(&mut acc, b, "valid", &|| format!("f1/{n}")); if grammar::recognise(b).is_err() { acc.viol("C06|machinery|recogniser-rejects-valid", "independent recogniser rejects a library-produced encoding", format!("f1/{n}"), json!({"input": hex::encode(b)})) } }
     acc.add("family1_valid", sd.len() as u64);
     // family 2: structural mutations (single; double in the thorough tier) + non-deterministic re-encodings + hand-written classes
@@ -229,7 +234,7 @@ pub fn run(ctx: &Ctx) -> i32 {
             if !seen.insert(mb.clone()) { continue }
             acc.inc("family2_single");
             judge(&mut acc, &mb, class, &|| format!("f2/{n}/m{i}:{class}"));
-            if th {
+            if th || v_small(&v) {
                 let mut m2 = vec![]; mutations(mv, &mut m2, &|x| x, false);
                 for (j, (c2, mv2)) in m2.iter().enumerate() { let mb2 = dcbor::bytes(mv2); if seen.insert(mb2.clone()) { acc.inc("family2_double"); judge(&mut acc, &mb2, c2, &|| format!("f2/{n}/m{i}:{class}/m{j}:{c2}")) } }
             }
@@ -241,7 +246,7 @@ pub fn run(ctx: &Ctx) -> i32 {
     acc = acc.merge(f2);
     for (class, b) in handwritten() { acc.inc("family2_handwritten"); judge(&mut acc, &b, &class, &|| format!("f2hw/{class}")) }
     // family 3: every single-byte replacement, deletion and insertion
-    let sd3 = seeds(if th { 4 } else { 3 });
+    let sd3 = seeds(if th { 5 } else { 4 });
     let f3: Acc = sd3.par_iter().with_max_len(1).map(|(n, b)| {
         let mut acc = Acc::new();
         for off in 0..b.len() {
@@ -253,7 +258,7 @@ pub fn run(ctx: &Ctx) -> i32 {
     }).reduce(Acc::new, Acc::merge);
     acc = acc.merge(f3);
     // family 4: ALL byte strings up to the length bound, bare and prefixed with the envelope tag
-    let maxlen = if th { 3 } else { 2 };
+    let maxlen = 3;
     let f4: Acc = (0..512usize).into_par_iter().map(|chunk| {
         let mut acc = Acc::new();
         let prefix: Vec<u8> = if chunk >= 256 { vec![0xd8, 0xc8] } else { vec![] };
@@ -271,6 +276,17 @@ pub fn run(ctx: &Ctx) -> i32 {
         acc
     }).reduce(Acc::new, Acc::merge);
     acc = acc.merge(f4);
+    if th {
+        // family 4b: ALL strings of length 4 under the envelope tag (2^32 inputs), split by the first two bytes
+        let f4b: Acc = (0..65536usize).into_par_iter().map(|hi| {
+            let mut acc = Acc::new();
+            let (b0, b1) = ((hi >> 8) as u8, (hi & 0xff) as u8);
+            // an input whose first item head already makes it ill-formed is rejected after reading one or two bytes; every one is still decoded
+            for lo in 0..65536usize { let b = [0xd8, 0xc8, b0, b1, (lo >> 8) as u8, (lo & 0xff) as u8]; acc.inc("family4_all_strings"); judge_fast(&mut acc, &b); }
+            acc
+        }).reduce(Acc::new, Acc::merge);
+        acc = acc.merge(f4b);
+    }
     // nesting depth: wrapped / node-subject chains 256 deep decode without crashing (on a thread with the default main-thread stack size)
     let depth_ok = std::thread::Builder::new().stack_size(8 << 20).spawn(|| {
         let mut acc = Acc::new();
@@ -293,7 +309,7 @@ pub fn run(ctx: &Ctx) -> i32 {
     let cov = json!({"evaluations": evals,
         "rule": "input families: (1) valid encodings, (2) single (thorough: double) structural mutations of the CBOR item tree + non-deterministic re-encodings + hand-written forbidden forms, (3) every single-byte replacement/deletion/insertion, (4) ALL byte strings up to the length bound bare and under the envelope tag; oracle: Err, or Ok with identical re-encoding (tag-24 alias tolerated), and Ok is a violation when the independent recogniser rejects for a reason the statement names; distinct non-trivial = distinct accepted inputs",
         "exhaustive": true,
-        "bounds": {"structural_seed_tree_weight": if th { 5 } else { 4 }, "byte_mutation_seed_tree_weight": if th { 4 } else { 3 }, "all_strings_max_len": maxlen, "nesting_depth": 256, "double_mutations": th}});
+        "bounds": {"structural_seed_tree_weight": if th { 6 } else { 5 }, "byte_mutation_seed_tree_weight": if th { 5 } else { 4 }, "all_strings_max_len": maxlen, "all_strings_under_envelope_tag_len": if th { 4 } else { 3 }, "nesting_depth": 256, "double_mutations": if th { "all seeds" } else { "seeds of at most 40 encoded bytes" }}});
     finish(ctx, acc, "exploration", cov, vec!["inputs the implementation rejects but my recogniser accepts are only counted (the statement lets the decoder be stricter; the recogniser does not check NFC)".into(),
         "the sweep runs in a child process; an abort is reported as C06|crash|process-abort".into()])
 }
